@@ -184,11 +184,17 @@ def if_then_else(c, a, b):
     return a if c else b
 
 
-def make_heap_types():
+_PADS = []
+
+
+def make_heap_types(perturb=0):
     """user-defined (heap-allocated) GP types for the typed variant; created when the family is set up so that
-    their addresses depend on what the process allocated before (pickled by reference: module attributes)"""
+    their addresses depend on what the process allocated before (pickled by reference: module attributes).
+    `perturb` inserts retained allocations of different sizes between the classes: another process, another heap."""
     g = globals()
-    for name, base_ in (("Angle", float), ("Ratio", float), ("Flag", int)):
+    for j, (name, base_) in enumerate((("Angle", float), ("Ratio", float), ("Flag", int))):
+        if perturb:
+            _PADS.append(bytearray(16 * ((perturb * (j + 3)) % 8) + 24 + 1024 * (perturb % 3)))
         cls = type(name, (base_,), {"__module__": __name__})
         g[name] = cls
 
@@ -699,7 +705,7 @@ class GPTyped(GPSym):
         variant = self.params.get("variant", "heap")
         tb = self.toolbox
         if variant == "heap":
-            make_heap_types()
+            make_heap_types(self.spec.get("perturb", 0))
             pset = gp.PrimitiveSetTyped("MAIN", [Angle, Ratio], Angle)
             pset.addPrimitive(angle_add, [Angle, Angle], Angle)
             pset.addPrimitive(ratio_mul, [Ratio, Ratio], Ratio)
@@ -1303,6 +1309,9 @@ def run(spec):
     keep = perturb_allocations(spec.get("perturb", 0))   # noqa: F841
     fam = FAMILIES[spec["family"]](spec)
     fam.setup()
+    if spec["family"] == "gp_typed" and spec.get("params", {}).get("variant") == "heap":
+        # evidence only: the iteration order of a set of the three type objects in THIS process
+        out["type_set_order"] = [t.__name__ for t in set([Angle, Ratio, Flag])]
     mode = spec["mode"]
     ngen = spec["ngen"]
     pm = None
